@@ -370,7 +370,7 @@ def euler_angles(eng, q):
     return [roll, pitch, yaw]
 
 
-@ext(r'(?:^|::)base::norm::<impl Matrix<.*>>::(\w+)|(?:^|::)Matrix::<.*>::(norm|normalize|as_slice|iter|fill|len|sum|dot|norm_squared|magnitude|dot|cross|perp|angle|transpose|try_inverse|determinant|sum|iter|abs|scale|component_mul|min|max|amax|amin|len|nrows|ncols|clone_owned|into_owned|column|row|fixed_rows|xy|xyz|push|as_slice|map|try_normalize|normalize_mut|zip_map|fill|copy_from|lerp)$|(?:^|::)base::(?:blas|ops|matrix|statistics|edition|min_max|swizzle|componentwise|construction|coordinates|conversion|iter|properties)::<impl (?:\w+(?:<.*>)? for )?Matrix<.*>>::(\w+)|(?:^|::)linalg::\w+::<impl Matrix<.*>>::(\w+)|(?:^|::)base::matrix::<impl Matrix<.*>>::(\w+)')
+@ext(r'(?:^|::)base::norm::<impl Matrix<.*>>::(\w+)|(?:^|::)Matrix::<.*?>::(\w+)(?:::<.*>)?$|(?:^|::)Matrix::<.*>::(norm|normalize|as_slice|iter|fill|len|sum|dot|norm_squared|magnitude|dot|cross|perp|angle|transpose|try_inverse|determinant|sum|iter|abs|scale|component_mul|min|max|amax|amin|len|nrows|ncols|clone_owned|into_owned|column|row|fixed_rows|xy|xyz|push|as_slice|map|try_normalize|normalize_mut|zip_map|fill|copy_from|lerp)$|(?:^|::)base::(?:blas|ops|matrix|statistics|edition|min_max|swizzle|componentwise|construction|coordinates|conversion|iter|properties)::<impl (?:\w+(?:<.*>)? for )?Matrix<.*>>::(\w+)|(?:^|::)linalg::\w+::<impl Matrix<.*>>::(\w+)|(?:^|::)base::matrix::<impl Matrix<.*>>::(\w+)')
 def matrix_method(eng, callee, a, m, fc):
     name = next(g for g in m.groups() if g)
     return matrix_method_impl(eng, name, a, callee, fc)
@@ -784,7 +784,7 @@ def ball_new(eng, callee, a, m, fc):
     return Struct('Ball', [a[0]])
 
 
-@ext(r'(?:^|::)Aabb::(\w+)$|bounding_volume::aabb::<impl \w+ for Aabb>::(\w+)|<Aabb as \w+>::(\w+)$')
+@ext(r'(?:^|::)Aabb::(\w+)(?:::<.*>)?$|bounding_volume::aabb::<impl \w+ for Aabb>::(\w+)|<Aabb as \w+>::(\w+)$')
 def aabb_method(eng, callee, a, m, fc):
     name = next(g for g in m.groups() if g)
     if name == 'new':
